@@ -452,12 +452,87 @@ def main(replay=None):
                 ck.violation("singular: %s" % SING[k], "%s returned normally (%s) although the matrix is exactly singular: the LAPACK info code is dropped" % (SING[k], "finite garbage" if i.split()[-1] == "1" else "non-finite values"),
                              dict(kind="singular", cases=[c], impl=[i]))
 
+
+    # ---------------- (g) the state left by load(), failed loads included ------------------------------------------------------
+    fdist = {}; fmis = 0
+    OK_ = {0: "Vector(3)", 1: "Matrix(2,3)", 2: "SymMatrix(3)"}; FCL = {0: "file of another kind", 1: "truncated file", 2: "unknown suffix", 3: "missing file", 4: "empty file", 5: "valid bigger file"}
+    FDIM = {0: ("7", "1"), 1: ("4", "5"), 2: ("5", "5")}
+    if rp is None or rp.get("kind") == "loadstate":
+        fcs = rp["cases"] if rp is not None else ["c18 9 %d %d %d" % (k, f, fc) for k in range(3) for f in range(4) for fc in range(6)]
+        rc, fo, err = core.run_harness(hb, fcs, wd, tag="fl")
+        for c, o in zip(fcs, fo):
+            _, _, k, f, fc = [int(x) for x in c.split()[0:1] * 0 + c.split()[1:]] if False else (0, 0) + tuple(int(x) for x in c.split()[2:])
+            key = "%s <- %s" % (OK_[k], FCL[fc]); t = o.split()
+            fdist[key + (" : reported" if t[0] != "0" else " : loaded")] = fdist.get(key + (" : reported" if t[0] != "0" else " : loaded"), 0) + 1
+            what = None
+            if o.startswith("CRASH") or len(t) < 6: what = "crashed (`%s`)" % o
+            elif t[3] != "1": what = "left the object claiming %s x %s with less storage than that (invariant storage = f(nlin,ncol) broken, Properties_C18.c18_load_preserves_invariant)" % (t[1], t[2])
+            elif t[5] != "1": what = "left an object whose guarded element access at its reported bounds wrote outside its storage (canary overwritten)"
+            elif fc == 3 and (t[0] == "0" or t[4] != "1"): what = "of a missing file %s" % ("succeeded" if t[0] == "0" else "changed the object")
+            elif fc == 0 and t[0] == "0": what = "accepted a file of another kind"
+            elif fc == 5 and (t[0] != "0" or (t[1], t[2]) != FDIM[k]): what = "of a valid file failed or gave dimensions %s x %s" % (t[1], t[2])
+            if what:
+                fmis += 1
+                ck.violation("%s::load <- %s (.%s)" % (OK_[k].split("(")[0], FCL[fc], FM[f]), "%s.load(\"fl_in.%s\") [%s] %s. harness line `%s` = status nlin ncol storage_consistent unchanged canaries_ok" % (OK_[k], "xyz" if fc == 2 else FM[f], FCL[fc], what, o),
+                             dict(kind="loadstate", cases=[c], impl=[o]))
+
+    # ---------------- (h) public entry points that take a name ---------------------------------------------------------------
+    ndist = {}; nmis = 0
+    ENT = {0: ("DipSourceMat(geo,dipoles,domain)", "domain", True), 1: ("DipSource2InternalPotMat(geo,dipoles,points,domain)", "domain", True),
+           2: ("Head2ECoGMat(geo,sensors,interface)", "interface", False), 3: ("CorticalMat(geo,M,domain)", "domain", False), 4: ("CorticalMat2(geo,M,domain)", "domain", False)}
+    if rp is None or rp.get("kind") in ("named", "tool"):
+        m3 = models.nested([0.8, 0.9, 1.0], [1.0, 0.0125, 1.0], level=0, names=["cortex", "skull", "scalp"])
+        ndir = os.path.join(wd, "head3"); g3, c3 = models.write_model(m3, ndir)
+        sp3 = os.path.join(ndir, "sens.txt"); open(sp3, "w").write("0.1 0.2 0.97\n0.3 -0.2 0.93\n-0.4 0.1 0.91\n")
+        dp3 = os.path.join(ndir, "dip.txt"); open(dp3, "w").write("0 0 0.3 0 0 1\n0.2 0 0 1 0 0\n")
+        pres = dict(mesh=[x[0] for x in m3["meshes"]], interface=[x[0] for x in m3["interfaces"]], domain=[x[0] for x in m3["domains"]])
+        tbl = sorted(set(sum(pres.values(), []))) + ["", "nosuch", "d0", "D0 ", " D0", "D", "D00", "i0", "I0 ", "Brain", "CORTEX"]
+        envn = {"C18_GEOM": g3, "C18_COND": c3, "C18_SENSORS": sp3, "C18_NAMES": "\x1f".join(tbl)}
+        ncs = ["c18 10 %d %d" % (e, k) for e in ENT for k in range(len(tbl))]
+        if rp is not None and rp.get("kind") == "named": ncs = rp["cases"]
+        rc, no, err = core.run_harness(hb, ncs, wd, tag="ne", env=envn, timeout=1200)
+        for c, o in zip(ncs, no):
+            e, k = int(c.split()[2]), int(c.split()[3]); nm = tbl[k]; label, cat, optional = ENT[e]
+            ndist[label] = ndist.get(label, 0) + 1
+            is_present = nm in pres[cat] or (optional and nm == "")
+            got_ok = o.split()[0] == "0"
+            bad = o.startswith("CRASH") or (not is_present and got_ok) or (is_present and e in (0, 1, 2) and not got_ok)
+            if bad:
+                nmis += 1
+                ck.violation("%s with name %r" % (label.split("(")[0], nm), "%s with %s name \"%s\" %s; required: %s (present: %s)" % (label, cat, nm, "crashed" if o.startswith("CRASH") else "returned a matrix" if got_ok else "threw (class %s)" % o.split()[0], "an exception" if not is_present else "success", pres[cat]),
+                             dict(kind="named", cases=[c], impl=[o], names=tbl))
+        # om_assemble with names
+        exe = os.path.join(bdir, "apps", "om_assemble")
+        tenv = dict(os.environ); tenv.update(OMP_NUM_THREADS="1", OPENBLAS_NUM_THREADS="1")
+        libs = ombuild.find_libs(bdir); tenv["LD_LIBRARY_PATH"] = ":".join(sorted({os.path.dirname(x) for x in libs.values()})) + ":" + tenv.get("LD_LIBRARY_PATH", "")
+        outp = os.path.join(ndir, "asm_out.bin")
+        runs = []
+        for nm in ["D0", "NoSuchDomain", "d0", "I0", "D0 "]: runs.append(("-DSM", [g3, c3, dp3, outp, nm], nm in pres["domain"]))
+        for nm in ["I0", "NoSuchInterface", "i0", "D0", ""]: runs.append(("-H2ECOGM", [g3, c3, sp3, nm, outp], nm in pres["interface"]))
+        for nm in ["NoSuchDomain", "I0", ""]: runs.append(("-CM", [g3, c3, sp3, nm, outp], None if nm in pres["domain"] else False))
+        for opt, args, expect in runs:
+            if os.path.exists(outp): os.remove(outp)
+            try:
+                pr = subprocess.run([exe, opt] + args, stdout=subprocess.PIPE, stderr=subprocess.PIPE, env=tenv, timeout=300, cwd=ndir); status = pr.returncode
+            except subprocess.TimeoutExpired:
+                status = "timeout"
+            ndist["om_assemble " + opt] = ndist.get("om_assemble " + opt, 0) + 1
+            wrote = os.path.exists(outp)
+            nm = args[4] if opt == "-DSM" else args[3]
+            if expect is False and (status == 0 or wrote):
+                nmis += 1
+                ck.violation("om_assemble %s with name %r" % (opt, nm), "om_assemble %s ... with the absent name \"%s\" exited with status %s and %s an output file; required: non-zero exit, nothing written" % (opt, nm, status, "wrote" if wrote else "did not write"),
+                             dict(kind="tool", tool="om_assemble", option=opt, name=nm, status=status, wrote=wrote))
+            if expect is True and (status != 0 or not wrote):
+                nmis += 1
+                ck.violation("om_assemble %s with present name %r" % (opt, nm), "om_assemble %s ... with the present name \"%s\" exited with status %s" % (opt, nm, status), dict(kind="tool", tool="om_assemble", option=opt, name=nm, status=status))
+
     res = ck.proof_result
-    ck.cov.update(evaluations=len(acases) + sum(ldist.values()) + wn + 1 + sum(sdist.values()) + sum(xdist.values()) + len(gdist), distinct_nontrivial=len(set(acases)) + sum(ldist.values()) + wn,
+    ck.cov.update(evaluations=len(acases) + sum(ldist.values()) + wn + 1 + sum(sdist.values()) + sum(xdist.values()) + len(gdist) + sum(fdist.values()) + sum(ndist.values()), distinct_nontrivial=len(set(acases)) + sum(ldist.values()) + wn,
                   rule="accessor cases: (method, nlin, ncol, arguments) with arguments aimed at the guard boundary (n-1, n, n+1, 2^31, 2^32-1, 2^32-n, 65535/65536, wrap-around ranges), shapes 0..%d, ~60%% expected to throw; lookups: every present name and 12 near-miss names on 4 lookup functions; I/O: prepared paths x entry points; write faults: every stream writer x 2 sizes x (boundary + random byte limits, /dev/full, missing directory); distinct = distinct case lines" % (7 if quick else 40),
                   samples=acases[:2] + ["c18 2 <kind> <name>", "c18 4 <kind> <fmt> <n> <k bytes>"], op_distribution=adist, expected_throws=throws,
                   accessor_mismatches=amis, lookup_io_distribution=ldist, lookup_io_mismatches=lmis,
-                  write_fault_distribution=wdist, write_fault_cases=wn, write_fault_mismatches=wmis, write_fault_file_size_equals_model=wexact, suffix_selection_distribution=sdist, suffix_selection_mismatches=smis, other_writers_distribution=xdist, other_writers_mismatches=xmis, singular_matrices=gdist,
+                  write_fault_distribution=wdist, write_fault_cases=wn, write_fault_mismatches=wmis, write_fault_file_size_equals_model=wexact, suffix_selection_distribution=sdist, suffix_selection_mismatches=smis, other_writers_distribution=xdist, other_writers_mismatches=xmis, singular_matrices=gdist, load_state_distribution=fdist, load_state_mismatches=fmis, named_entry_points=ndist, named_entry_mismatches=nmis,
                   big_symmatrix_witness=big, traces_validated_against_impl=len(acases) + sum(ldist.values()) + wn)
     ck.cov["trusted_base"] += ["translator translators/t_accessors.py (restricted C++ expression grammar -> Gallina with explicit 2^32 / 2^64 reduction); validated each run by evaluating the generated definitions against the real calls",
                                "outcome-class models coq/Geom/Lookups.v, coq/Maths/WriteFault.v (hand-written, tied by the sweeps)",
